@@ -453,6 +453,13 @@ def prove(chk, units, model_targets, prop, proof_files, allow_axioms=()):
         if hy:
             res['proof_ok'] = False
             res['broken'] = ('hygiene', 'forbidden construct', '; '.join(hy[:5]))
+        # a unit the translator could not regenerate: the theorems were re-checked against the committed snapshot of that
+        # unit, not against the current source -- the tie is broken even though every proof still goes through
+        stale = ['%s (%s)' % (u, str(v.get('error') or v.get('reason') or 'unsupported')[:160]) for u, v in res['tieA'].items() if v and not v.get('ok', True)]
+        if stale and res['broken'] is None:
+            res['broken'] = ('tools/rs2v', 'regeneration of ' + ', '.join(u.split()[0] for u in stale),
+                             'the translator does not support the current source of: ' + '; '.join(stale) +
+                             ' -- the theorems were checked against the committed snapshot of the model, not against this source')
     else:
         line = None
         m = re.search(r'line (\d+)', detail or '')
